@@ -15,129 +15,32 @@ open JsonLex JsonLex.RFC
 
 /-! ## Numbers (decode_number.go : parseNumber) -/
 
-/-- the last byte of `p` is a digit -/
-def EndsInDigit (p : Bytes) : Prop := ∃ c, p.getLast? = some c ∧ isDigit c = true
-
-theorem getLast?_append_of_ne_nil {α} (a : List α) {b : List α} (hb : b ≠ []) :
-    (a ++ b).getLast? = b.getLast? := by
-  rw [List.getLast?_append]
-  cases h : b.getLast? with
-  | none => exact absurd (List.getLast?_eq_none_iff.1 h) hb
-  | some c => simp
-
-theorem endsInDigit_append (a : Bytes) {b : Bytes} (hb : b ≠ []) :
-    EndsInDigit (a ++ b) ↔ EndsInDigit b := by
-  unfold EndsInDigit; rw [getLast?_append_of_ne_nil a hb]
-
-theorem endsInDigit_of_allDigits {ds : Bytes} (h : AllDigits ds) (hne : ds ≠ []) : EndsInDigit ds :=
-  ⟨ds.getLast hne, List.getLast?_eq_some_getLast hne, h _ (List.getLast_mem hne)⟩
-
-/-- every RFC 8259 number ends in a digit -/
-theorem number_endsInDigit {p : Bytes} (h : Number p) : EndsInDigit p := by
-  obtain ⟨m, i, f, e, hm, hi, hf, he⟩ := h
-  cases he with
-  | some e0 sg d ds he0 hsg hd hds =>
-    have : m ++ (i ++ (f ++ e0 :: (sg ++ d :: ds))) = (m ++ (i ++ (f ++ e0 :: sg))) ++ (d :: ds) := by simp
-    rw [this, endsInDigit_append _ (by simp)]
-    exact endsInDigit_of_allDigits (AllDigits.cons.2 ⟨hd, hds⟩) (by simp)
-  | none =>
-    cases hf with
-    | some d ds hd hds =>
-      have : m ++ (i ++ (0x2e#8 :: d :: ds ++ [])) = (m ++ (i ++ [0x2e#8])) ++ (d :: ds) := by simp
-      rw [this, endsInDigit_append _ (by simp)]
-      exact endsInDigit_of_allDigits (AllDigits.cons.2 ⟨hd, hds⟩) (by simp)
-    | none =>
-      have hid : AllDigits i ∧ i ≠ [] := by
-        cases hi with
-        | zero => exact ⟨by intro d hd; simp at hd; subst hd; decide, by simp⟩
-        | nonzero c ds hc hds => exact ⟨AllDigits.cons.2 ⟨digit19_digit c hc, hds⟩, by simp⟩
-      have : m ++ (i ++ ([] ++ [])) = m ++ i := by simp
-      rw [this, endsInDigit_append _ hid.2]
-      exact endsInDigit_of_allDigits hid.1 hid.2
-
-/-- a dangling exponent does not end in a digit -/
-theorem dangling_not_endsInDigit {m i f e : Bytes} (he : DanglingExp e) :
-    ¬ EndsInDigit (m ++ (i ++ (f ++ e))) := by
-  have key : ∀ x : Byte, (x = 0x65#8 ∨ x = 0x45#8 ∨ x = 0x2b#8 ∨ x = 0x2d#8) → isDigit x = false := by decide
-  cases he with
-  | mk e0 sg he0 hsg =>
-    have : m ++ (i ++ (f ++ e0 :: sg)) = (m ++ (i ++ f)) ++ (e0 :: sg) := by simp
-    rw [this, endsInDigit_append _ (by simp)]
-    rintro ⟨c, hc, hd⟩
-    cases hsg with
-    | none => simp at hc; subst hc; rw [key _ (by rcases he0 with h | h <;> simp [h])] at hd; cases hd
-    | plus => simp at hc; subst hc; rw [key _ (by simp)] at hd; cases hd
-    | minus => simp at hc; subst hc; rw [key _ (by simp)] at hd; cases hd
-
-/-- `parseNumber` accepts exactly: an RFC 8259 number, or an RFC number prefix `[-] int [frac]`
-followed by `e`/`E` and an optional sign *without digits* provided at least one more byte follows —
-in both cases the next byte, if any, must be a delimiter. -/
+/-- **`parseNumber` accepts exactly the RFC 8259 numbers** that are followed by a delimiter byte or by the
+end of input, and returns their length.  (DESIGN.md finding 4 — an exponent marker without digits was
+accepted — was repaired by repo commit be83e9c; the model mirrors the repaired code.) -/
 theorem parseNumber_exact (s : Bytes) (n : Nat) :
-    parseNumber s = some n ↔
-      ∃ p rest, s = p ++ rest ∧ p.length = n ∧ DelimOK rest ∧ NumberLoose p rest :=
+    parseNumber s = some n ↔ ∃ p rest, s = p ++ rest ∧ p.length = n ∧ DelimOK rest ∧ Number p :=
   JsonLex.parseNumber_exact s n
 
-/-- What is accepted is a number exactly when it ends in a digit. -/
-theorem parseNumber_sound_iff (s : Bytes) (n : Nat) (h : parseNumber s = some n) :
-    Number (s.take n) ↔ EndsInDigit (s.take n) := by
+/-- **parseNumber_sound**: the accepted prefix is an RFC 8259 number. -/
+theorem parseNumber_sound (s : Bytes) (n : Nat) (h : parseNumber s = some n) : Number (s.take n) := by
   obtain ⟨p, rest, rfl, rfl, _, hp⟩ := (parseNumber_exact s n).1 h
-  rw [List.take_left' rfl]
-  refine ⟨number_endsInDigit, fun hd => ?_⟩
-  obtain ⟨m, i, f, e, rest, hm, hi, hf, he⟩ := hp
-  rcases he with he | ⟨he, _⟩
-  · exact Number.mk m i f e hm hi hf he
-  · exact absurd hd (dangling_not_endsInDigit he)
+  rwa [List.take_left' rfl]
 
-/- FULL STATEMENT (DESIGN.md §6 C21) — *false of the current code* (finding 4):
-     theorem parseNumber_sound : parseNumber s = some n → Number (s.take n)                     -/
-
-/-- The full soundness statement is false: `1e,` is accepted with length 2 and `1e` is not a number. -/
-theorem parseNumber_sound_false :
-    ¬ (∀ (s : Bytes) (n : Nat), parseNumber s = some n → Number (s.take n)) := by
-  intro h
-  have h1 : parseNumber [0x31#8, 0x65#8, 0x2c#8] = some 2 := by decide
-  have h2 := (parseNumber_sound_iff _ _ h1).1 (h _ _ h1)
-  obtain ⟨c, hc, hd⟩ := h2
-  simp at hc; subst hc; revert hd; decide
-
-/-- Soundness under the weakest hypothesis that excludes finding 4: the accepted prefix ends in a
-digit (by `parseNumber_sound_iff` nothing weaker will do). -/
-theorem parseNumber_sound_partial (s : Bytes) (n : Nat) (h : parseNumber s = some n)
-    (hd : EndsInDigit (s.take n)) : Number (s.take n) :=
-  (parseNumber_sound_iff s n h).2 hd
-
-example : parseNumber [0x2d#8, 0x31#8, 0x2e#8, 0x35#8, 0x65#8, 0x2b#8, 0x33#8, 0x7d#8] = some 7 ∧
-    EndsInDigit ([0x2d#8, 0x31#8, 0x2e#8, 0x35#8, 0x65#8, 0x2b#8, 0x33#8, 0x7d#8].take 7) :=
-  ⟨by decide, ⟨0x33#8, by decide, by decide⟩⟩
-
-/-- Completeness: an RFC 8259 number followed by a delimiter (or by nothing) is accepted whole. -/
+/-- **parseNumber_complete**: an RFC 8259 number followed by a delimiter (or by nothing) is accepted whole. -/
 theorem parseNumber_complete (p rest : Bytes) (hp : Number p) (hd : DelimOK rest) :
-    parseNumber (p ++ rest) = some p.length := by
-  obtain ⟨m, i, f, e, hm, hi, hf, he⟩ := hp
-  exact (parseNumber_exact _ _).2 ⟨_, rest, rfl, rfl, hd, NumberG.mk m i f e rest hm hi hf (Or.inl he)⟩
+    parseNumber (p ++ rest) = some p.length :=
+  (parseNumber_exact _ _).2 ⟨_, rest, rfl, rfl, hd, hp⟩
 
 /-- … and nothing longer or shorter is: the accepted length is unique. -/
 theorem parseNumber_length_unique (p rest : Bytes) (hp : Number p) (hd : DelimOK rest) (n : Nat)
     (h : parseNumber (p ++ rest) = some n) : n = p.length := by
   rw [parseNumber_complete p rest hp hd] at h; exact (Option.some.inj h).symm
 
-/-- With the repair /verif/fixes/json-exponent-digits.diff applied (`parseNumberFixed`) soundness and
-completeness hold without hypothesis: the function accepts exactly the RFC 8259 numbers that are
-followed by a delimiter or the end of input. -/
-theorem parseNumberFixed_exact (s : Bytes) (n : Nat) :
-    parseNumberFixed s = some n ↔ ∃ p rest, s = p ++ rest ∧ p.length = n ∧ DelimOK rest ∧ Number p :=
-  JsonLex.parseNumberFixed_exact s n
-
-theorem parseNumberFixed_sound (s : Bytes) (n : Nat) (h : parseNumberFixed s = some n) :
-    Number (s.take n) := by
-  obtain ⟨p, rest, rfl, rfl, _, hp⟩ := (parseNumberFixed_exact s n).1 h
-  rwa [List.take_left' rfl]
-
-/-- membership in the RFC 8259 number grammar is decided by running the repaired function on the whole
-string (this is the `rfcnumber`/`numspec` voice of the model driver, compared with
-`encoding/json.Valid` by the harness) -/
-theorem number_iff (p : Bytes) : Number p ↔ parseNumberFixed p = some p.length := by
-  rw [parseNumberFixed_exact]
+/-- membership in the RFC 8259 number grammar is decided by running `parseNumber` on the whole string
+(this is the `rfcnumber`/`numspec` voice of the model driver, compared with `encoding/json.Valid`) -/
+theorem number_iff (p : Bytes) : Number p ↔ parseNumber p = some p.length := by
+  rw [parseNumber_exact]
   constructor
   · intro h; exact ⟨p, [], by simp, rfl, DelimOK.nil, h⟩
   · rintro ⟨q, rest, hs, hl, _, hq⟩
@@ -148,12 +51,11 @@ theorem number_iff (p : Bytes) : Number p ↔ parseNumberFixed p = some p.length
     subst this
     simp at hs; subst hs; exact hq
 
-/-- the repair only removes the dangling-exponent inputs: on everything the repaired function
-accepts, the current one agrees -/
-theorem parseNumberFixed_le (s : Bytes) (n : Nat) (h : parseNumberFixed s = some n) :
-    parseNumber s = some n := by
-  obtain ⟨p, rest, rfl, rfl, hd, hp⟩ := (parseNumberFixed_exact s n).1 h
-  exact parseNumber_complete p rest hp hd
+/-- the inputs of the former finding 4 are rejected: `1e,`  `1e+ `  `-0E-]` -/
+example : parseNumber [0x31#8, 0x65#8, 0x2c#8] = none ∧ parseNumber [0x31#8, 0x65#8, 0x2b#8, 0x20#8] = none ∧
+    parseNumber [0x2d#8, 0x30#8, 0x45#8, 0x2d#8, 0x5d#8] = none := by decide
+
+example : parseNumber [0x2d#8, 0x31#8, 0x2e#8, 0x35#8, 0x65#8, 0x2b#8, 0x33#8, 0x7d#8] = some 7 := by decide
 
 /-! ## Strings (decode_string.go : Decoder.parseString) -/
 
@@ -201,61 +103,23 @@ example : JString [0x22#8, 0x5c#8, 0x75#8, 0x64#8, 0x38#8, 0x30#8, 0x30#8, 0x22#
 
 /-! ## The token automaton (decode.go : Decoder.Read) -/
 
-/-- what the current `parseNumber` can make a Number token of -/
-theorem numAcc_iff (p : Bytes) : NumAcc p ↔ ∃ rest, NumberLoose p rest := Iff.rfl
-
-theorem numAcc_number {p : Bytes} (h : NumAcc p) (hd : EndsInDigit p) : Number p := by
-  obtain ⟨rest, m, i, f, e, rest, hm, hi, hf, he⟩ := h
-  rcases he with he | ⟨he, _⟩
-  · exact Number.mk m i f e hm hi hf he
-  · exact absurd hd (dangling_not_endsInDigit he)
-
-/- FULL STATEMENT (DESIGN.md §6 C21) — false of the current code because of finding 4
-   (`[1e,2e]` is read to EOF; the harness replays it against `encoding/json.Valid`):
-     theorem decoder_sound : decodeAll b = .ok toks → JsonText b
-   and, independently of finding 4, false for the empty input: `decodeAll [] = .ok []`
-   (the EOF case of `Read` only looks at the open stack; protojson.Unmarshal rejects the EOF token
-   it gets in this case, which the harness checks).                                              -/
-
-/-- **decoder_sound (partial).**  If a fresh `Decoder` reads `b` token by token up to EOF without
-error, then either `b` consists of whitespace only (and no token was read), or `b` splits into
-whitespace-separated tokens `ts` that derive from the RFC 8259 `value` grammar, every string token
-being an RFC string and every number token an RFC number *or* a number with a dangling exponent;
-if all number tokens end in a digit, `b` is an RFC 8259 JSON text. -/
-theorem decoder_sound_partial (b : Bytes) (toks : List Token) (h : decodeAll b = .ok toks) :
-    AllWs b ∨ ∃ ts, LexesTo NumAcc JString b ts ∧ Value ts ∧
-      ((∀ p, Tok.number p ∈ ts → EndsInDigit p) → JsonText b) := by
-  rcases decodeAllG_sound numSound_current b toks h with hw | ⟨ts, hl, hv⟩
+/-- **decoder_sound.**  If a fresh `Decoder` reads `b` token by token up to EOF without error, then `b`
+is an RFC 8259 JSON text — it splits into whitespace-separated tokens that derive from the `value`
+grammar, every number token an RFC number and every string token an RFC string — or `b` consists of
+whitespace only and no token was read (the EOF case of `Read` only looks at the open stack; see
+`decoder_accepts_empty`; protojson.Unmarshal rejects the EOF token it gets in that case, which the
+harness checks). -/
+theorem decoder_sound (b : Bytes) (toks : List Token) (h : decodeAll b = .ok toks) :
+    AllWs b ∨ JsonText b := by
+  rcases decodeAllG_sound numSound_parseNumber b toks h with hw | ht
   · exact Or.inl hw
-  · refine Or.inr ⟨ts, hl.mono (fun _ h => h) (fun _ h => h.jstring), hv, fun hd => ⟨ts, ?_, hv⟩⟩
-    clear hv h
-    induction hl with
-    | nil w hw => exact LexesTo.nil w hw
-    | cons w b rest t ts hw hsp _ ih =>
-      refine LexesTo.cons w b rest t ts hw ?_ (ih (fun p hp => hd p (List.mem_cons_of_mem _ hp)))
-      cases hsp with
-      | number b hb => exact Spells.number b (numAcc_number hb (hd b (List.mem_cons_self ..)))
-      | string b hb => exact Spells.string b hb.jstring
-      | null => exact Spells.null
-      | true_ => exact Spells.true_
-      | false_ => exact Spells.false_
-      | lbrace => exact Spells.lbrace
-      | rbrace => exact Spells.rbrace
-      | lbrack => exact Spells.lbrack
-      | rbrack => exact Spells.rbrack
-      | comma => exact Spells.comma
-      | colon => exact Spells.colon
+  · exact Or.inr (ht.mono (fun _ h => h) (fun _ h => h.jstring))
 
 /-- the empty input is read to EOF without error (and without a token) -/
 theorem decoder_accepts_empty : decodeAll [] = .ok [] := by rfl
 
-/-- **decoder_sound once the repair is applied**: everything the decoder reads to EOF is an
-RFC 8259 JSON text, or whitespace only. -/
-theorem decoder_sound_fixed (b : Bytes) (toks : List Token) (h : decodeAllFixed b = .ok toks) :
-    AllWs b ∨ JsonText b := by
-  rcases decodeAllG_sound numSound_fixed b toks h with hw | ht
-  · exact Or.inl hw
-  · exact Or.inr (ht.mono (fun _ h => h) (fun _ h => h.jstring))
+/-- the documents of the former finding 4 are rejected: `[1e,2e]` -/
+example : ∃ e, decodeAll [0x5b#8, 0x31#8, 0x65#8, 0x2c#8, 0x32#8, 0x65#8, 0x5d#8] = .error e := ⟨_, rfl⟩
 
 /-! ## The Encoder (encode.go) -/
 
